@@ -110,3 +110,49 @@ Theorem C06_log_literals_within_limit : forall fuel maxd acc lr v r,
     end.
 Proof. exact value_lits_within_limit. Qed.
 Print Assumptions C06_log_literals_within_limit.
+
+(* ------------------------------------------------------------------ *)
+(* End to end (CnfLimits.v), every admissible run of the whole DIMACS parsers and of the solver-log parser: the
+   returned data respects every limit the input declares — for every item ever handed out, whatever the final
+   outcome — and the clean end is reached only with exactly the declared number of clauses.  A declared 0 means
+   "unspecified" (as in the code).  lits_within S limit ls: every literal is non-zero, |z| <= limit, and is the value of
+   a numeral somewhere in the text; prefix_within: weight within u64 / group within the declared group count. *)
+From Flussab Require Import CnfLimits.
+
+Theorem C06_dimacs_declared_limits : forall fuel k maxd S fail h items fin lr' v',
+  Forall (fun b => b < 256) S -> nlen S < 2 ^ 62 -> (length S < fuel)%nat ->
+  aruns (parse_dimacs fuel k maxd false lrs_init) (view_init S fail) (ADone (Some (Some h), items, fin, lr') v') ->
+  (0 <= h_vars h <= maxd)%Z /\ (0 <= h_clauses h <= USIZE_MAX)%Z /\
+  match k with KCnf => h_extra h = 0%Z | KWcnf => (0 <= h_extra h <= 18446744073709551615)%Z | KGcnf => (0 <= h_extra h <= USIZE_MAX)%Z end /\
+  (h_clauses h <> 0%Z -> (Z.of_nat (length items) <= h_clauses h)%Z /\ (fin = FOk -> Z.of_nat (length items) = h_clauses h)) /\
+  Forall (fun it => prefix_within S k (if (h_extra h =? 0)%Z then USIZE_MAX else h_extra h) (fst it) /\
+                    lits_within S (if (h_vars h =? 0)%Z then maxd else h_vars h) (snd it)) items.
+Proof. exact parse_dimacs_limits_header. Qed.
+Print Assumptions C06_dimacs_declared_limits.
+
+(* no header, or a header the caller asked to ignore: only the literal type's own limit is enforced *)
+Theorem C06_dimacs_type_limits_only : forall fuel k maxd ignore_header S fail ho items fin lr' v',
+  Forall (fun b => b < 256) S -> nlen S < 2 ^ 62 -> (length S < fuel)%nat ->
+  aruns (parse_dimacs fuel k maxd ignore_header lrs_init) (view_init S fail) (ADone (Some ho, items, fin, lr') v') ->
+  ho = None \/ ignore_header = true ->
+  Forall (fun it => prefix_within S k USIZE_MAX (fst it) /\ lits_within S maxd (snd it)) items.
+Proof. exact parse_dimacs_limits_type_only. Qed.
+Print Assumptions C06_dimacs_type_limits_only.
+
+Theorem C06_log_limits : forall fuel maxd ignore_unknown S fail sat assignment lr' v',
+  Forall (fun b => b < 256) S -> nlen S < 2 ^ 62 -> (length S < fuel)%nat ->
+  aruns (parse_log fuel maxd ignore_unknown lrs_init) (view_init S fail) (ADone (Ok (sat, assignment), lr') v') ->
+  lits_within S maxd assignment.
+Proof. exact parse_log_limits. Qed.
+Print Assumptions C06_log_limits.
+
+Theorem C06_limit_vocabulary : forall S k glimit limit pre ls,
+  (lits_within S limit ls <-> Forall (fun z => z <> 0%Z /\ (Z.abs z <= limit)%Z /\ num_at S true z) ls) /\
+  (prefix_within S k glimit pre <->
+   match k with
+   | KCnf => pre = 0%Z
+   | KWcnf => (0 <= pre <= 18446744073709551615)%Z /\ num_at S false pre
+   | KGcnf => (0 <= pre <= glimit)%Z /\ num_at S false pre
+   end).
+Proof. intros. split; [reflexivity|]. destruct k; reflexivity. Qed.
+Print Assumptions C06_limit_vocabulary.
